@@ -67,7 +67,7 @@ def parseMutOp (dflt : Int) (j : Json) : Except String (Option (MutOp Int)) := d
 /-- in-place arithmetic on a leaf fiber, expressed through the modelled mutators from the pre-state:
     `f += s` is `iterShapeRef()` with `p += s` (dense references over the shape, every visited element
     written), `f *= s` rewrites the non-default payloads, `f *= g` writes the products at the coordinates
-    both fibers present -/
+    both fibers present and the default at the other coordinates `f` presents -/
 def parseArith (dflt : Int) (d : Nat) (tb : T (d + 1)) (j : Json) : Except String (Option (MutOp Int)) := do
   let k ← fStr j "k"
   let at_ := match j.getObjVal? "at" with | .ok a => (asInts a).toOption.getD [] | _ => []
@@ -89,9 +89,13 @@ def parseArith (dflt : Int) (d : Nat) (tb : T (d + 1)) (j : Json) : Except Strin
     | "imulf" =>
       let g ← parseTree 1 (← field j "f")
       let gl := (show List (Int × T 0) from g)
-      let both := l.filter (fun e => (show Int from e.2) != dflt &&
-        (match lookup gl e.1 with | some gv => (show Int from gv) != dflt | none => false))
-      let w := both.map (fun e => (e.1, (show Int from e.2) * (match lookup gl e.1 with | some gv => (show Int from gv) | none => 0)))
+      -- every element `self` presents is rewritten: the product where `other` presents the coordinate
+      -- too, the default where it does not (`for _, v in self - other: v <<= default`)
+      let both := l.filter (fun e => (show Int from e.2) != dflt)
+      let gv (c : Int) : Option Int := match lookup gl c with
+        | some x => if (show Int from x) != dflt then some (show Int from x) else none
+        | none => none
+      let w := both.map (fun e => (e.1, match gv e.1 with | some y => (show Int from e.2) * y | none => dflt))
       pure (some (.denseRef at_ (both.map (·.1)) w))
     | _ => pure none
   | _ => pure none
